@@ -205,25 +205,28 @@ theorem decBody_ok_iff (fd : Nat) (hfd : 1 ≤ fd) {sg : Bytes} (hs : IsSign sg)
       simp only [Bool.not_true, Bool.false_eq_true, if_false]
       exact (dec64_final hfd hs hipd hfrs k).mpr ⟨(dec_equation hle).mp heq, hb⟩
 
-theorem parseDec64_ok_iff (fd : Nat) (hfd : 1 ≤ fd) (s : Bytes) (k : Int) :
-    parseDec64 fd s = .ok k ↔ DecLexWs false fd s k ∧ -(2 ^ 63) ≤ k ∧ k ≤ 2 ^ 63 - 1 := by
+theorem parseDec64_ok_iff (nd : Bool) (fd : Nat) (hfd : 1 ≤ fd) (s : Bytes) (k : Int) :
+    parseDec64With nd fd s = .ok k ↔ DecLexWs nd fd s k ∧ -(2 ^ 63) ≤ k ∧ k ≤ 2 ^ 63 - 1 := by
   constructor
   · intro h
     have hs : s = s.takeWhile isSpace ++ s.dropWhile isSpace := List.takeWhile_append_dropWhile.symm
     have hl := all_takeWhile isSpace s
-    unfold parseDec64 at h
+    unfold parseDec64With at h
     simp only at h
     generalize s.takeWhile isSpace = l at hs hl
     generalize s.dropWhile isSpace = v at hs h
     cases v with
     | nil => cases h
     | cons c v' =>
-      simp only [List.tail_cons] at h
+      simp only at h
       split at h
       · cases h
       · rename_i hbad
         split at h
         · rename_i hsign
+          by_cases hnd : (nd && !(v'.head?.map isDigit).getD false) = true
+          · rw [if_pos hnd] at h; cases h
+          rw [if_neg hnd] at h
           have hsg : IsSign [c] := by
             simp only [Bool.or_eq_true, beq_iff_eq] at hsign
             rcases hsign with h45 | h43
@@ -232,7 +235,20 @@ theorem parseDec64_ok_iff (fd : Nat) (hfd : 1 ≤ fd) (s : Bytes) (k : Int) :
           obtain ⟨⟨ip, fr, r, point, ht, hr, hipd, hfrd, hp1, hp0, heq⟩, hb⟩ := (decBody_ok_iff fd hfd hsg _ k).mp h
           refine ⟨⟨l, [c], ip, fr, r, point, ?_, hl, hr, hsg, hipd, hfrd, hp1, hp0, ?_, heq⟩, hb⟩
           · rw [hs, ht]; simp [decTail]
-          · simp
+          · cases nd
+            · simp
+            · simp only [if_true]
+              -- the repaired code looked at the character after the sign: it is a digit, so `ip` is not empty
+              intro hip0
+              subst hip0
+              simp only [Bool.true_and, Bool.not_eq_true', Bool.not_eq_true, Bool.not_eq_false, Bool.not_not] at hnd
+              rw [ht, List.nil_append] at hnd
+              cases hh : (decTail point fr r).head? with
+              | none => rw [hh] at hnd; simp at hnd
+              | some c' =>
+                rw [hh] at hnd
+                have := decTail_head_not_digit (point := point) (fr := fr) hr c' hh
+                simp [this] at hnd
         · rename_i hsign
           have hsg : IsSign [] := Or.inl rfl
           obtain ⟨⟨ip, fr, r, point, ht, hr, hipd, hfrd, hp1, hp0, heq⟩, hb⟩ := (decBody_ok_iff fd hfd hsg _ k).mp h
@@ -244,23 +260,30 @@ theorem parseDec64_ok_iff (fd : Nat) (hfd : 1 ≤ fd) (s : Bytes) (k : Int) :
             · rfl
           refine ⟨⟨l, [], ip, fr, r, point, ?_, hl, hr, hsg, hipd, hfrd, hp1, hp0, ?_, heq⟩, hb⟩
           · rw [hs, ht]; simp [decTail]
-          · simp only [Bool.false_eq_true, if_false]
-            left
+          · have hgoal : ip ≠ [] := ?_
+            · cases nd
+              · exact Or.inl hgoal
+              · exact hgoal
             intro hip0
             subst hip0
             have := decTail_head_not_digit (point := point) (fr := fr) hr c (by rw [List.nil_append] at ht; rw [← ht]; rfl)
             rw [hcd] at this; cases this
   · rintro ⟨⟨l, sg, ip, fr, r, point, hs', hl', hr, hsg, hipd, hfrd, hp1, hp0, hcond, heq⟩, hb⟩
-    simp only [Bool.false_eq_true, if_false] at hcond
+    have hcond' : ip ≠ [] ∨ sg ≠ [] := by
+      cases nd
+      · simpa using hcond
+      · exact Or.inl (by simpa using hcond)
+    have hipnd : nd = true → ip ≠ [] := by
+      intro h; subst h; simpa using hcond
     have hbody : ∀ sg', IsSign sg' → sg' = sg → decBody fd sg' (ip ++ decTail point fr r) = .ok k := by
       intro sg' hsg' he
       subst he
       exact (decBody_ok_iff fd hfd hsg' _ k).mpr ⟨⟨ip, fr, r, point, rfl, hr, hipd, hfrd, hp1, hp0, heq⟩, hb⟩
     have hv : s = l ++ (sg ++ (ip ++ decTail point fr r)) := by rw [hs']; simp [decTail]
-    unfold parseDec64
+    unfold parseDec64With
     rcases hsg with rfl | rfl | rfl
     · -- no sign: the integer part is not empty and starts with a digit
-      have hipne : ip ≠ [] := by rcases hcond with h | h; exact h; exact absurd rfl h
+      have hipne : ip ≠ [] := by rcases hcond' with h | h; exact h; exact absurd rfl h
       cases ip with
       | nil => exact absurd rfl hipne
       | cons c ip' =>
@@ -287,7 +310,17 @@ theorem parseDec64_ok_iff (fd : Nat) (hfd : 1 ≤ fd) (s : Bytes) (k : Int) :
       have h1 : (!isDigit (43 : UInt8) && (43 : UInt8).toNat != 45 && (43 : UInt8).toNat != 43) = false := by decide
       have h2 : ((43 : UInt8).toNat == 45 || (43 : UInt8).toNat == 43) = true := by decide
       rw [h1, h2]
-      simp only [Bool.false_eq_true, if_false, if_true, List.tail_cons]
+      simp only [Bool.false_eq_true, if_false, if_true]
+      have hnd : (nd && !((ip ++ decTail point fr r).head?.map isDigit).getD false) = false := by
+        cases hn : nd
+        · rfl
+        · have hne := hipnd hn
+          cases ip with
+          | nil => exact absurd rfl hne
+          | cons a ip' =>
+            simp only [List.all_cons, Bool.and_eq_true] at hipd
+            simp [hipd.1]
+      rw [if_neg (by rw [hnd]; simp)]
       exact hbody [43] (Or.inr (Or.inl rfl)) rfl
     · have hdrop : s.dropWhile isSpace = 45 :: (ip ++ decTail point fr r) := by
         rw [hv, dropWhile_append_stop hl']
@@ -297,7 +330,17 @@ theorem parseDec64_ok_iff (fd : Nat) (hfd : 1 ≤ fd) (s : Bytes) (k : Int) :
       have h1 : (!isDigit (45 : UInt8) && (45 : UInt8).toNat != 45 && (45 : UInt8).toNat != 43) = false := by decide
       have h2 : ((45 : UInt8).toNat == 45 || (45 : UInt8).toNat == 43) = true := by decide
       rw [h1, h2]
-      simp only [Bool.false_eq_true, if_false, if_true, List.tail_cons]
+      simp only [Bool.false_eq_true, if_false, if_true]
+      have hnd : (nd && !((ip ++ decTail point fr r).head?.map isDigit).getD false) = false := by
+        cases hn : nd
+        · rfl
+        · have hne := hipnd hn
+          cases ip with
+          | nil => exact absurd rfl hne
+          | cons a ip' =>
+            simp only [List.all_cons, Bool.and_eq_true] at hipd
+            simp [hipd.1]
+      rw [if_neg (by rw [hnd]; simp)]
       exact hbody [45] (Or.inr (Or.inr rfl)) rfl
 
 end LyModel.Val
